@@ -393,9 +393,14 @@ class JsonHistoryFlusher(threading.Thread):
         try:
             with open(self.filename, newline="\n", encoding="utf-8") as f:
                 hist = xlj.LazyJSON(f).load()
-        except (JSONDecodeError, ValueError, OSError):
-            # File is corrupted or unreadable - start with empty history
+        except (JSONDecodeError, ValueError, FileNotFoundError):
+            # File is corrupted or gone - start with empty history
             hist = {"cmds": [], "sessionid": "", "ts": [time.time(), 0], "locked": True}
+        except OSError as err:
+            # The file is there but cannot be read right now (EMFILE, EIO,
+            # EACCES ...): replacing it would lose what it already holds.
+            print(f"history: failed to read {self.filename!r}: {err}", file=sys.stderr)
+            return
         load_hist_len = len(hist["cmds"])
         hist["cmds"].extend(cmds)
         if self.at_exit:
